@@ -27,7 +27,8 @@
  * READ of a 4-byte GLOBAL — that is lh_char_hash reading its volatile `random_seed` while
  * another thread's CAS installs it (see Properties_C18.v, C18_seed_plain_read_witness).
  * Every other report (any plain write, anything on the heap, i.e. on a reference count)
- * terminates the child with status 66 -> the parent exits 66 -> framework: CRASH tsan:race. */
+ * terminates the child with status 66; the parent prints "CRASH tsan:race" as the
+ * observation of that line (the framework's notation for a sanitizer abort) and goes on. */
 #include "common.h"
 #include <pthread.h>
 #include <signal.h>
@@ -207,8 +208,11 @@ static void *seed_worker(void *arg)
 	struct json_object *o;
 	pthread_barrier_wait(&bar);
 	o = json_object_new_object();                  /* the thread's first object */
+	/* the very first use of the hash in this thread is, alternately, the insertion itself
+	 * (its hash is then only visible through the later lookup) or an explicit hash call */
+	if (i & 1) seed_first[i] = lh_get_hash(json_object_get_object(o), seed_key);
 	json_object_object_add(o, seed_key, json_object_new_int((int)i));
-	seed_first[i] = lh_get_hash(json_object_get_object(o), seed_key);
+	if (!(i & 1)) seed_first[i] = lh_get_hash(json_object_get_object(o), seed_key);
 	for (r = 0; r < seed_R; r++)
 		if (lh_get_hash(json_object_get_object(o), seed_key) != seed_first[i]) seed_late[i]++;
 	seed_obj[i] = o;
@@ -364,17 +368,19 @@ void run_case(char *rest)
 	}
 	while (waitpid(pid, &status, 0) < 0 && errno == EINTR) {}
 	if (!(WIFEXITED(status) && WEXITSTATUS(status) == 0)) {
-		/* forward what the child wrote to stderr (the sanitizer report), then fail this line */
+		/* The case ran in its own process, so the driver itself survives: forward what the child
+		 * wrote to stderr (the sanitizer report) and record the crash as this line's observation,
+		 * in the framework's own notation, then go on with the next case. */
 		if (errf) {
 			char buf[4096];
 			size_t n;
 			rewind(errf);
 			while ((n = fread(buf, 1, sizeof buf, errf)) > 0) fwrite(buf, 1, n, stderr);
 		}
-		if (WIFSIGNALED(status)) fprintf(stderr, "\ndrv_thr: child killed by signal %d\n", WTERMSIG(status));
 		fflush(stderr);
-		fflush(stdout);
-		_exit(WIFEXITED(status) ? WEXITSTATUS(status) : 70);
+		if (WIFEXITED(status) && WEXITSTATUS(status) == 66) printf(" CRASH tsan:race");
+		else if (WIFSIGNALED(status)) printf(" CRASH signal:%d", WTERMSIG(status));
+		else printf(" CRASH exit:%d", WEXITSTATUS(status));
 	}
 	if (errf) fclose(errf);
 }
